@@ -30,6 +30,7 @@ import (
 	"net/url"
 	"os"
 	"os/exec"
+	"runtime/pprof"
 	"sort"
 	"strconv"
 	"strings"
@@ -117,13 +118,20 @@ func connLines(idx int) []string {
 
 func connIndex(lines []string) int {
 	n := len(connLists)
+	at := func(s string) int {
+		i, ok := connListIdx[s]
+		if !ok || i >= n {
+			panic("not a Connection list of this tier: " + s)
+		}
+		return i
+	}
 	switch len(lines) {
 	case 0:
 		return 0
 	case 1:
-		return 1 + connListIdx[lines[0]]
+		return 1 + at(lines[0])
 	}
-	return n + 1 + connListIdx[lines[0]]*n + connListIdx[lines[1]]
+	return n + 1 + at(lines[0])*n + at(lines[1])
 }
 
 func connCount() int { n := len(connLists); return 1 + n + n*n }
@@ -637,10 +645,16 @@ func classOf(c Case, f int) string {
 	}
 	switch f {
 	case fConn:
-		if v <= len(connLists) {
-			return "conn_one_line"
+		cl := "conn_one_line"
+		if v > len(connLists) {
+			cl = "conn_two_lines"
 		}
-		return "conn_two_lines"
+		for _, t := range flatten(connLines(v)) {
+			if strings.EqualFold(t, "close") {
+				return cl + "_with_close"
+			}
+		}
+		return cl
 	case fXFoo, fXBar:
 		return "listed_hdr"
 	case fFixed:
@@ -744,6 +758,11 @@ func candidates(c Case, f int) []int {
 		add([]string{l})
 	}
 	if len(lines) == 2 {
+		for _, a := range strings.Split(lines[0], ",") { // the same tokens on one line
+			for _, b := range strings.Split(lines[1], ",") {
+				add([]string{a + "," + b})
+			}
+		}
 		for _, a := range strings.Split(lines[0], ",") {
 			for _, b := range strings.Split(lines[1], ",") {
 				add([]string{a, b})
@@ -770,6 +789,12 @@ func minimise(c Case, sym string, eval func(Case) fails) Case {
 		}
 	}
 	return c
+}
+
+// replayOf is what is needed to re-run a case: the factor tuple plus the Connection lines spelled out
+// (the index of a Connection configuration depends on the tier).
+func replayOf(part string, min, orig Case) map[string]interface{} {
+	return map[string]interface{}{"part": part, "case": min, "conn_lines": connLines(min.F[fConn]), "original": orig, "original_conn_lines": connLines(orig.F[fConn])}
 }
 
 type sigMemo struct {
@@ -874,9 +899,7 @@ func smallConn(n int) []int {
 		connIndex([]string{"keep-alive", "X-Foo"}),
 		connIndex([]string{"close", " X-Bar "}),
 	}
-	if connListIdx["X-Foo, X-Bar "] != 0 || true {
-		all = append(all, connIndex([]string{"X-Foo, X-Bar "}))
-	}
+	all = append(all, connIndex([]string{"X-Foo, X-Bar "}))
 	if n > len(all) {
 		n = len(all)
 	}
@@ -987,8 +1010,11 @@ type violationSink struct {
 func (vs *violationSink) want(sig string) bool {
 	vs.mu.Lock()
 	defer vs.mu.Unlock()
+	if vs.counts[sig] >= 3 {
+		return false
+	}
 	vs.counts[sig]++
-	return vs.counts[sig] <= 3
+	return true
 }
 
 func headerString(h http.Header) string {
@@ -1020,6 +1046,7 @@ func runStack(rep *lib.Report, tier string) {
 	var mu sync.Mutex
 	total := acc{states: map[string]struct{}{}}
 	var extraEvals int64
+	sigCounts := map[string]int64{}
 	deadline := time.Now().Add(13 * time.Minute)
 	var capped int32
 	for si := range spaces {
@@ -1035,6 +1062,8 @@ func runStack(rep *lib.Report, tier string) {
 				return
 			}
 			a := acc{states: map[string]struct{}{}}
+			localSig := map[string]string{} // classes|symptom -> signature
+			localCnt := map[string]int64{}
 			lo, hi := int64(ci)*chunk, int64(ci+1)*chunk
 			if hi > n {
 				hi = n
@@ -1059,15 +1088,22 @@ func runStack(rep *lib.Report, tier string) {
 				}
 				a.states[stateKey(c, obs.In)] = struct{}{}
 				if idx == lo && (ci%97 == 0) {
-					rep.Sample(8, map[string]interface{}{"space": s.Name, "case": c, "in": headerString(obs.In), "out": headerString(obs.Out),
+					rep.Sample(8, map[string]interface{}{"space": s.Name, "case": c, "conn_lines": connLines(c.F[fConn]), "in": headerString(obs.In), "out": headerString(obs.Out),
 						"err": obs.Err, "skip_round_trip": obs.Skip, "response_status": obs.ResStatus})
 				}
 				if len(fs) == 0 {
 					continue
 				}
 				a.failing++
+				cls := classes(c)
 				for _, f := range fs {
+					key := cls + "|" + f.Sym
+					if sig, ok := localSig[key]; ok {
+						localCnt[sig]++
+						continue
+					}
 					sig, min := memo.signature(c.Dir, c, f.Sym, func(d Case) fails { atomic.AddInt64(&extraEvals, 1); return eval(d) })
+					localSig[key] = sig
 					if sink.want(sig) {
 						mfs, mobs := w.evalStack(min)
 						desc := f.Desc
@@ -1076,10 +1112,10 @@ func runStack(rep *lib.Report, tier string) {
 								desc = mf.Desc
 							}
 						}
-						rep.Violate(sig, fmt.Sprintf("%s stack, minimised case: in {%s} -> out {%s} err=%q skip=%v: %s", c.Dir, headerString(mobs.In), headerString(mobs.Out), mobs.Err, mobs.Skip, desc),
-							map[string]interface{}{"part": "stack", "case": min, "original": c})
+						rep.Violate(sig, fmt.Sprintf("%s stack, minimised case: in {%s} -> out {%s} err=%q skip=%v response=%d: %s", c.Dir, headerString(mobs.In), headerString(mobs.Out), mobs.Err, mobs.Skip, mobs.ResStatus, desc),
+							replayOf("stack", min, c))
 					} else {
-						rep.Violate(sig, "", nil)
+						localCnt[sig]++
 					}
 				}
 			}
@@ -1092,8 +1128,16 @@ func runStack(rep *lib.Report, tier string) {
 			for k := range a.states {
 				total.states[k] = struct{}{}
 			}
+			for k, v := range localCnt {
+				sigCounts[k] += v
+			}
 			mu.Unlock()
 		})
+	}
+	for sig, cnt := range sigCounts { // one Violate call per failing case; descriptions only for the first ones
+		for k := int64(0); k < cnt; k++ {
+			rep.Violate(sig, "", nil)
+		}
 	}
 	if capped != 0 {
 		rep.Incomplete = "stack part stopped at its 13 minute cap"
@@ -1571,7 +1615,7 @@ func proxyWorker(tier string, shard, n int, start int64, outFile string) {
 					}
 					out.Violations = append(out.Violations, lib.Violation{Sig: sig,
 						Desc:   fmt.Sprintf("through the proxy (%s), minimised case: client sent %q; origin saw %q; client got %s %d {%s}: %s", c.Dir, mex.Sent, osaw, mex.Outcome, mex.Status, headerString(mex.ResH), desc),
-						Replay: map[string]interface{}{"part": "proxy", "case": min, "original": c}})
+						Replay: replayOf("proxy", min, c)})
 				}
 			}
 		}
@@ -1701,8 +1745,9 @@ func replay(path string) {
 		Sig   string
 		First struct {
 			Replay struct {
-				Part string
-				Case Case
+				Part      string
+				Case      Case
+				ConnLines []string `json:"conn_lines"`
 			}
 		}
 	}
@@ -1711,6 +1756,7 @@ func replay(path string) {
 		os.Exit(2)
 	}
 	c := r.First.Replay.Case
+	c.F[fConn] = connIndex(r.First.Replay.ConnLines)
 	fmt.Printf("replaying %s: %+v\n", r.Sig, c)
 	var fs fails
 	if c.Proxy {
@@ -1775,9 +1821,22 @@ func main() {
 		return
 	}
 
+	if pf := os.Getenv("C14_PROFILE"); pf != "" {
+		f, _ := os.Create(pf)
+		pprof.StartCPUProfile(f)
+		go func() { time.Sleep(40 * time.Second); pprof.StopCPUProfile(); f.Close(); os.Exit(3) }()
+	}
 	rep := lib.NewReport("C14", "model_checking")
-	runStack(rep, tier)
-	runProxy(rep, tier)
+	t0 := time.Now()
+	if os.Getenv("C14_ONLY") != "proxy" {
+		runStack(rep, tier)
+	}
+	rep.Coverage["stack_wall_s"] = time.Since(t0).Seconds()
+	t0 = time.Now()
+	if os.Getenv("C14_ONLY") != "stack" {
+		runProxy(rep, tier)
+	}
+	rep.Coverage["proxy_wall_s"] = time.Since(t0).Seconds()
 
 	cases := rep.Counter("stack_cases") + rep.Counter("proxy_cases")
 	rep.Coverage["states"] = rep.Counter("stack_states") + rep.Counter("proxy_states")
